@@ -406,6 +406,46 @@ def oracle_pyramid_inputs(ck):
             ck.fail('%s modified the coefficient list or tensors passed to it' % name, {'oracle': 'pyramid', 'module': name})
 
 
+def oracle_layout_arguments(ck):
+    """every band-pass layout (o_dim, ri_dim), batch / channel counts of one included: DTCWTInverse leaves the tensors of the
+    pyramid it is given unchanged (as produced by the forward pass AND as dense copies), and back-propagation through
+    DTCWTForward leaves the cotangent it is handed unchanged"""
+    from pytorch_wavelets import DTCWTInverse, DTCWTForward
+    pairs = [(o, r) for o in range(6) for r in range(6) if o != r] + [(2, -1), (-4, -1), (1, -6)]
+    for (o, r) in pairs:
+        for (n, c) in [(1, 1), (1, 2), (2, 2)]:
+            try:
+                f = DTCWTForward(J=2, o_dim=o, ri_dim=r); inv = DTCWTInverse(o_dim=o, ri_dim=r)
+            except Exception:
+                continue
+            x = torch.randn(n, c, 8, 12)
+            for dense in (False, True):
+                with torch.no_grad():
+                    yl, yh = f(x)
+                yh = [h.contiguous().clone() if dense else h for h in yh]
+                snap_l = yl.clone(); snap_h = [h.clone() for h in yh]
+                with torch.no_grad():
+                    inv((yl, yh))
+                if torch.equal(yl, snap_l) and all(torch.equal(a, b) for a, b in zip(yh, snap_h)):
+                    ck.oracle_ok(('layout-args', o, r, n, c, dense), group='arguments-unchanged')
+                else:
+                    ck.fail('DTCWTInverse(o_dim=%d, ri_dim=%d) modified the pyramid tensors passed to it (N=%d, C=%d, %s tensors)' % (o, r, n, c, 'dense' if dense else 'forward-output'),
+                            {'oracle': 'layout-args', 'o': o, 'ri': r, 'n': n, 'c': c, 'dense': dense}); return
+            xg = x.clone().requires_grad_(True)
+            yl, yh = f(xg)
+            for j in range(2):
+                g = torch.randn_like(yh[j]).contiguous(); snap = g.clone()
+                yh[j].backward(g, retain_graph=True)
+                if not torch.equal(g, snap):
+                    ck.fail('back-propagation through DTCWTForward(o_dim=%d, ri_dim=%d) modified the cotangent tensor handed to it (level %d, N=%d, C=%d)' % (o, r, j + 1, n, c),
+                            {'oracle': 'layout-cotangent', 'o': o, 'ri': r, 'n': n, 'c': c, 'level': j + 1}); return
+            g = torch.randn_like(yl); snap = g.clone()
+            yl.backward(g)
+            if not torch.equal(g, snap):
+                ck.fail('back-propagation through DTCWTForward(o_dim=%d, ri_dim=%d) modified the low-pass cotangent handed to it' % (o, r), {'oracle': 'layout-cotangent', 'o': o, 'ri': r, 'n': n, 'c': c, 'level': 0}); return
+            ck.oracle_ok(('layout-cotangent', o, r, n, c), group='arguments-unchanged')
+
+
 def run(ck):
     from ..translate import regen_all
     rt.setup_torch()
@@ -428,6 +468,7 @@ def run(ck):
             rt.guard(ck, oracle_history, ck, 60 if q else 600, nt)
         rt.guard(ck, oracle_contention, ck, 4, 12 if q else 60)
         rt.guard(ck, oracle_pyramid_inputs, ck)
+        rt.guard(ck, oracle_layout_arguments, ck)
         rt.guard(ck, oracle_dtype_history, ck)
         if ((ck.lean is not None and not ck.lean.ok) or st.mismatches) and not ck.failures:
             for nt in (1, 2, 8):
